@@ -89,6 +89,17 @@ def iso_defect(core, side):
     return float(np.max(np.abs(g - np.eye(g.shape[0])))) if g.size else 0.0
 
 
+
+def same_state(t, x0):
+    """the trajectory starts with the initial state: the argument itself or an equal tensor train"""
+    if t is x0:
+        return True
+    if metadata_problem(t) or list(t.row_dims) != list(x0.row_dims) or list(t.col_dims) != list(x0.col_dims):
+        return False
+    a, b = contract(t.cores).reshape(-1), contract(x0.cores).reshape(-1)
+    return bool(np.max(np.abs(a - b)) <= 1e-12 * max(1.0, float(np.max(np.abs(b)))))
+
+
 def compare_obj(t, exp):
     """Compare a real TT with the expected abstract object; returns None or a message."""
     st = exp.get('st', 'exact')
